@@ -137,6 +137,41 @@ func ruleDispatchOrder(w *core.World, r *core.Report, fname, cons string) {
 		return
 	}
 	r.Check(bad == "" && n > 0, cons, badPos, "%s (dispatching paths=%d)", bad, n)
+	ruleAllUnitCommands(w, r, f, cons)
+}
+
+// ruleAllUnitCommands: the business Put iterates over unit.Commands itself,
+// forward, every element (no re-slicing), and puts (elem.Cmd, elem.Args...).
+func ruleAllUnitCommands(w *core.World, r *core.Report, f *ssa.Function, cons string) {
+	ok := false
+	var pos token.Pos = f.Pos()
+	for _, s := range core.Sites(f, false) {
+		if s.Method != "Put" || !s.Common().IsInvoke() {
+			continue
+		}
+		if _, isC := core.CmdName(s); isC {
+			continue
+		}
+		pos = s.Pos()
+		// the command name: field Cmd of an element &slice[i]
+		var ia *ssa.IndexAddr
+		core.Walk(s.Args()[0], func(v ssa.Value) bool {
+			if x, isIA := v.(*ssa.IndexAddr); isIA && ia == nil {
+				ia = x
+			}
+			return true
+		})
+		if ia == nil || !forwardRangeIndex(ia.Index) {
+			continue
+		}
+		// the slice is a plain load of unit.Commands
+		if core.IsFieldLoad(ia.X, "bisyncReplayUnit", "Commands") && fieldNameOfLoad(s.Args()[0]) == "Cmd" {
+			// the arguments come from the same element
+			same := core.DependsOnDeep(s.Args()[len(s.Args())-1], func(v ssa.Value) bool { return v == ssa.Value(ia) })
+			ok = same
+		}
+	}
+	r.Check(ok, cons+"/all-commands", pos, "the transaction must carry every command of the unit, in order: Put(cmd.Cmd, cmd.Args...) for each element of unit.Commands (no re-slicing, forward)")
 }
 
 func minInt(a, b int) int {
